@@ -13,7 +13,7 @@ def user_cache_root():
 
 
 def protocol_less_root(url):
-    for p in ("file://", "memory://", "vfs://"):
+    for p in ("file://", "memory://", "vfs://", "lvfs://"):
         if url.startswith(p):
             url = url[len(p):]
     if not url.startswith("/"):
